@@ -18,6 +18,7 @@ type CheckConfig struct {
 // History is one generated case.
 type History struct {
 	Seed uint64
+	N    int // universe size
 	Ops  []*Op
 }
 
@@ -141,8 +142,9 @@ func RunCheck(cfg CheckConfig) (int, error) {
 	for i := 0; i < nh; i++ {
 		hs := r.U64()
 		hr := hx.NewRand(hs)
-		u := NewUniverse(4 + hr.Intn(3))
-		h := &History{Seed: hs, Ops: GenHistory(hr, u, GenParams{Blocks: 1 + hr.Intn(nb), TxPerBlock: ntx, Checks: true})}
+		nU := 4 + hr.Intn(3)
+		u := NewUniverse(nU)
+		h := &History{Seed: hs, N: nU, Ops: GenHistory(hr, u, GenParams{Blocks: 1 + hr.Intn(nb), TxPerBlock: ntx, Checks: true})}
 		t := RunImpl(u, h)
 		traces = append(traces, t)
 		res.Evaluations++
@@ -191,6 +193,9 @@ func RunCheck(cfg CheckConfig) (int, error) {
 		tt := RunImpl(u, &History{Ops: min})
 		m, _ := hx.RunLean(cfg.Lean, tt.Lines)
 		dd := firstDiff(tt, m)
+		if dd < 0 { // the difference did not reproduce (the implementation is not deterministic): keep the original
+			tt, m, dd, min = t, models[i], d, t.H.Ops
+		}
 		what := fmt.Sprintf("impl and model differ at op %d (%s): impl=%q model=%q", dd, tt.Lines[dd], tt.Impl[dd].Obs, m[dd])
 		path := writeReplay(cfg, fmt.Sprintf("%s-corr-%d.json", cfg.Prop, t.H.Seed), replayFile{Property: cfg.Prop, Kind: "correspondence",
 			What: what, Seed: t.H.Seed, Ops: min, Lines: tt.Lines, Impl: obsOf(tt.Impl), Model: m})
